@@ -79,11 +79,11 @@ func (t *Template) newAction(pos Pos, line int) *ActionNode {
 }
 
 func (t *Template) newCommand(pos Pos) *CommandNode {
-	return &CommandNode{NodeBase: NodeBase{TemplatePath: t.Name, NodeType: NodeCommand, Pos: pos}}
+	return &CommandNode{NodeBase: NodeBase{TemplatePath: t.Name, NodeType: NodeCommand, Pos: pos, Line: t.lex.lineNumber()}}
 }
 
 func (t *Template) newNil(pos Pos) *NilNode {
-	return &NilNode{NodeBase: NodeBase{TemplatePath: t.Name, NodeType: NodeNil, Pos: pos}}
+	return &NilNode{NodeBase: NodeBase{TemplatePath: t.Name, NodeType: NodeNil, Pos: pos, Line: t.lex.lineNumber()}}
 }
 
 func (t *Template) newField(pos Pos, line int, ident string) *FieldNode {
@@ -95,11 +95,11 @@ func (t *Template) newChain(pos Pos, line int, node Node) *ChainNode {
 }
 
 func (t *Template) newBool(pos Pos, true bool) *BoolNode {
-	return &BoolNode{NodeBase: NodeBase{TemplatePath: t.Name, NodeType: NodeBool, Pos: pos}, True: true}
+	return &BoolNode{NodeBase: NodeBase{TemplatePath: t.Name, NodeType: NodeBool, Pos: pos, Line: t.lex.lineNumber()}, True: true}
 }
 
 func (t *Template) newString(pos Pos, orig, text string) *StringNode {
-	return &StringNode{NodeBase: NodeBase{TemplatePath: t.Name, NodeType: NodeString, Pos: pos}, Quoted: orig, Text: text}
+	return &StringNode{NodeBase: NodeBase{TemplatePath: t.Name, NodeType: NodeString, Pos: pos, Line: t.lex.lineNumber()}, Quoted: orig, Text: text}
 }
 
 func (t *Template) newEnd(pos Pos) *endNode {
@@ -147,7 +147,7 @@ func (t *Template) newCatch(pos Pos, line int, errVar *IdentifierNode, list *Lis
 }
 
 func (t *Template) newNumber(pos Pos, text string, typ itemType) (*NumberNode, error) {
-	n := &NumberNode{NodeBase: NodeBase{TemplatePath: t.Name, NodeType: NodeNumber, Pos: pos}, Text: text}
+	n := &NumberNode{NodeBase: NodeBase{TemplatePath: t.Name, NodeType: NodeNumber, Pos: pos, Line: t.lex.lineNumber()}, Text: text}
 	// todo: optimize
 	switch typ {
 	case itemCharConstant:
